@@ -129,20 +129,20 @@ def removeOp (s : Sched) (n : Name) : Res :=
   | (_, none, _) => (s, [.failed .keyError], some .keyError)
   | (s1, some _, gone) => (s1, gone.map (fun e => .removed e.rid), none)
 
-/-- `rescheduleEvent(name, t)` (after the repair: the arguments are looked up first) -/
+/-- `rescheduleEvent(name, t)` (after the repair: the arguments are looked up first; the loop keeps
+the last matching tuple).  The re-added entry continues the registration of that tuple; any other
+tuple of that name (there is none in a reachable state) is simply removed. -/
 def reschedOp (s : Sched) (n : Name) (t : Nat) : Res :=
-  let found := (s.sched.filter (fun e => e.name = n)).getLast?
   match removeEvent s n with
   | (_, none, _) => (s, [.failed .keyError], some .keyError)
   | (s1, some f, gone) =>
-    match found with
+    match gone.getLast? with
     | some e =>
-      -- the other entries of that name (none, under the invariant) are simply removed
       let r := (addEvent s1 f t (some n) e.args (some e.rid)).1
-      (r.1, (gone.filter (fun g => !(g.rid = e.rid))).map (fun g => .removed g.rid) ++ r.2.1, r.2.2)
+      (r.1, gone.dropLast.map (fun g => .removed g.rid) ++ r.2.1, r.2.2)
     | none =>
       let r := (addEvent s1 f t (some n) [] none).1
-      (r.1, gone.map (fun g => .removed g.rid) ++ r.2.1, r.2.2)
+      (r.1, r.2.1, r.2.2)
 
 /-! ### event functions -/
 
@@ -171,6 +171,11 @@ def execActs : Sched → List Act → Res
 
 def body (P : Prog) (fn : Nat) : List Act := P.getD fn []
 
+/-- `count is None or count > 0` (after the decrement) -/
+def again : Option Nat → Bool
+  | none => true
+  | some c => decide (0 < c)
+
 /-- calling what is stored in `events`: a plain function is called with the entry's arguments;
 a periodic wrapper ignores them, calls its function with its own and re-schedules itself in a
 `finally` clause whose `return` swallows the function's exception. -/
@@ -182,10 +187,7 @@ def call (P : Prog) (s : Sched) (f : FnRef) (rid : Option Nat) (due : Nat) (args
   | .wrapper fn period name wargs count =>
     let r := execActs s (body P fn)
     let count' : Option Nat := count.map (· - 1)
-    let again : Bool := match count' with
-      | none => true
-      | some c => decide (0 < c)
-    if again then
+    if again count' then
       let a := (addEvent r.1 (.wrapper fn period name wargs count') (r.1.now + period) name [] none).1
       (a.1, .fired rid due s.now fn wargs :: (r.2.1 ++ a.2.1), a.2.2)
     else
@@ -211,6 +213,12 @@ inductive RunRes where
   | invalid                                  -- the picks are not an execution of the loop
 deriving DecidableEq, Repr
 
+/-- put the events of an earlier iteration in front -/
+def RunRes.prepend (a : List Ev) : RunRes → RunRes
+  | .ok s evs => .ok s (a ++ evs)
+  | .crashed s evs => .crashed s (a ++ evs)
+  | .invalid => .invalid
+
 /-- `run()`, replaying the entries the heap handed out (by name) -/
 def runPicks (P : Prog) : Sched → List Name → RunRes
   | s, [] => if loopCond s then .invalid else .ok s []
@@ -225,10 +233,7 @@ def runPicks (P : Prog) : Sched → List Name → RunRes
       | some (f, d) =>
         let r := call P { s1 with events := d } f (some e.rid) e.t e.args
         -- `except Exception: log.exception(...)`
-        match runPicks P r.1 ps with
-        | .ok s2 evs => .ok s2 (r.2.1 ++ evs)
-        | .crashed s2 evs => .crashed s2 (r.2.1 ++ evs)
-        | .invalid => .invalid
+        (runPicks P r.1 ps).prepend r.2.1
 
 /-! ### operations -/
 
